@@ -193,8 +193,8 @@ def run(ctx):
     return finish(ctx, "theorems: the Jacobian-polynomial tables (regenerated) give the Bernstein net of det J for all real nets; "
                   "Bernstein bounds on the closed triangle (every degree) justify the decision of a decided piece. The subdivision "
                   "loop of polynomial_sign is modelled and tied by exact correspondence of Triangle.is_valid on lattice/perturbation "
-                  "families; its soundness across subdivision levels is the conjunction of these theorems with C09, not yet one Coq theorem",
+                  "families; its soundness ACROSS subdivision levels is one Coq theorem (answer +1 / -1 => the polynomial has that sign at "
+                  "every real point of the closed triangle), and is_valid = True => det J > 0 everywhere (degrees 2, 3)",
                   search=search,
-                  unproved=["soundness of polynomial_sign across subdivision levels as a single theorem (pieces proved: C09 restriction, "
-                            "Bernstein bounds; the covering argument is not formalised)",
-                            "float margin near zero"])
+                  unproved=["completeness: a triangle with det J > 0 everywhere is reported valid within the subdivision budget (not proved)",
+                            "float margin near zero (the theorems are about exact arithmetic on the values of the doubles)"])
